@@ -42,6 +42,17 @@ fn main() {
         };
         let idx = j.get("index").and_then(|v| v.as_u64()).unwrap_or_else(|| bad("no index in replay file"));
         let seed = j.get("seed").and_then(|v| v.as_u64()).unwrap_or_else(|| bad("no seed in replay file"));
+        {
+            let limit: u64 = std::env::var("VERIF_REPLAY_LIMIT_S").ok().and_then(|v| v.parse().ok()).unwrap_or(300);
+            let (id, wl2, path2) = (prop.id().to_string(), wl.clone(), path.clone());
+            std::thread::spawn(move || {
+                std::thread::sleep(std::time::Duration::from_secs(limit));
+                println!("VIOLATION property={} replay={}", id, path2);
+                println!("  signature: no-return/{}", wl2);
+                println!("  what: the replayed case did not return within {}s (it normally takes milliseconds): a call into the crate does not terminate", limit);
+                std::process::exit(1);
+            });
+        }
         let rec = core::replay_case(prop.as_ref(), &wl, idx, seed);
         println!("replay property={} workload={} index={} seed={}", prop.id(), wl, idx, seed);
         for l in &rec.log {
